@@ -377,4 +377,63 @@ theorem genFacts_allTrue_of (h1 : Gen.Websocket.allConnWritesUnderMu = true)
     (h4 : Gen.Websocket.dataFrameBuffersWrittenInOneLockHold = true) : genFacts = Facts.allTrue := by
   simp [genFacts, Facts.allTrue, h1, h2, h3, h4]
 
+theorem mem_set_frames {senders : List Sender} {i : Nat} {f : Bytes} {rest : List Bytes} {a : Bool}
+    (hi : senders[i]? = some ⟨f :: rest, a⟩) {s : Sender} (hs : s ∈ senders.set i ⟨rest, a⟩) {g : Bytes}
+    (hg : g ∈ s.frames) : ∃ s' ∈ senders, g ∈ s'.frames := by
+  obtain ⟨j, hj⟩ := List.getElem?_of_mem hs
+  by_cases hji : j = i
+  · subst hji
+    have hlt : j < senders.length := by
+      have := List.getElem?_eq_some_iff.mp hi; exact this.1
+    rw [List.getElem?_set_self hlt] at hj
+    cases hj
+    exact ⟨_, List.mem_of_getElem? hi, List.mem_cons_of_mem _ hg⟩
+  · rw [List.getElem?_set_ne (fun h => hji h.symm)] at hj
+    exact ⟨s, List.mem_of_getElem? hj, hg⟩
+
+/-- **Soundness of the acceptance test**: an accepted wire is a concatenation of whole frames, each of
+them a frame of one of the senders, optionally followed by a proper prefix of one of the frames whose
+write failed. In particular no frame is torn by another one. -/
+theorem acceptsF_sound (fuel : Nat) : ∀ (wire : Bytes) (senders : List Sender) (partials : List Bytes),
+    acceptsF fuel wire senders partials = true →
+    ∃ (frames : List Bytes) (p : Bytes), wire = frames.flatten ++ p ∧
+      (∀ f ∈ frames, ∃ s ∈ senders, f ∈ s.frames) ∧
+      (p = [] ∨ ∃ f ∈ partials, p.length < f.length ∧ f.take p.length = p) := by
+  induction fuel with
+  | zero => intro w s p h; simp [acceptsF] at h
+  | succ n ih =>
+    intro wire senders partials h
+    simp only [acceptsF, Bool.or_eq_true] at h
+    rcases h with h | h
+    · simp only [Bool.and_eq_true, Bool.or_eq_true, List.any_eq_true] at h
+      obtain ⟨_, h2⟩ := h
+      rcases h2 with h2 | ⟨f, hf, h3⟩
+      · have : wire = [] := by simpa using h2
+        exact ⟨[], [], by simp [this], by simp, Or.inl rfl⟩
+      · simp only [Bool.and_eq_true, decide_eq_true_eq, beq_iff_eq] at h3
+        exact ⟨[], wire, by simp, by simp, Or.inr ⟨f, hf, h3.1, h3.2⟩⟩
+    · simp only [List.any_eq_true, List.mem_range] at h
+      obtain ⟨i, _, hi⟩ := h
+      split at hi
+      · rename_i f rest a hsi
+        simp only [Bool.and_eq_true, decide_eq_true_eq, beq_iff_eq] at hi
+        obtain ⟨⟨hlen, htake⟩, hrec⟩ := hi
+        obtain ⟨frames, p, e1, e2, e3⟩ := ih _ _ _ hrec
+        refine ⟨f :: frames, p, ?_, ?_, e3⟩
+        · have : wire = wire.take f.length ++ wire.drop f.length := (List.take_append_drop _ _).symm
+          rw [this, htake, e1]; simp
+        · intro g hg
+          rcases List.mem_cons.mp hg with rfl | hg'
+          · exact ⟨_, List.mem_of_getElem? hsi, by simp⟩
+          · obtain ⟨s, hs, hgs⟩ := e2 g hg'
+            exact mem_set_frames hsi hs hgs
+      · cases hi
+
+theorem accepts_sound (wire : Bytes) (senders : List Sender) (partials : List Bytes)
+    (h : accepts wire senders partials = true) :
+    ∃ (frames : List Bytes) (p : Bytes), wire = frames.flatten ++ p ∧
+      (∀ f ∈ frames, ∃ s ∈ senders, f ∈ s.frames) ∧
+      (p = [] ∨ ∃ f ∈ partials, p.length < f.length ∧ f.take p.length = p) :=
+  acceptsF_sound _ wire senders partials h
+
 end Oryx.WsConc
